@@ -6,6 +6,7 @@ import (
 	"fmt"
 	"math"
 	"strconv"
+	"sync"
 	"time"
 
 	cactus "github.com/cactus/go-statsd-client/v5/statsd"
@@ -192,4 +193,52 @@ func VerifC18DurationBuckets() {
 	}
 	verifrt.Emit("samples", s2)
 	verifrt.Reach("c18-duration-buckets")
+}
+
+// VerifC18Concurrent: one reporter shared by two goroutines reporting buckets of two
+// histograms (concrete bounds, so the real number formatting is evaluated): each call must
+// still produce exactly its own stat name (every schedule with at most 2 preemptions).
+func VerifC18Concurrent() {
+	st := &vLockedStatter{}
+	r := NewReporter(st, Options{})
+	s1, s2 := verifrt.Int64("s"), verifrt.Int64("s")
+	var wg sync.WaitGroup
+	verifrt.Explore(2)
+	wg.Add(2)
+	go func() {
+		defer wg.Done()
+		r.ReportHistogramValueSamples("alpha", nil, nil, 1.5, 2.5, s1)
+	}()
+	go func() {
+		defer wg.Done()
+		r.ReportHistogramDurationSamples("beta", nil, nil, time.Second, 90*time.Minute, s2)
+	}()
+	wg.Wait()
+	verifrt.StopExplore()
+	verifrt.Assert("c18.concurrent.two-calls", len(st.calls) == 2)
+	okA, okB := false, false
+	for _, c := range st.calls {
+		if c.name == "alpha.1.500000-2.500000" && c.op == "Inc" {
+			okA = true
+			verifrt.Assert("c18.concurrent.value", c.i == s1)
+		}
+		if c.name == "beta.1s-1h30m0s" && c.op == "Inc" {
+			okB = true
+			verifrt.Assert("c18.concurrent.value", c.i == s2)
+		}
+	}
+	verifrt.Assert("c18.concurrent.each-call-under-its-own-stat-name", okA && okB)
+	verifrt.Reach("c18-concurrent")
+}
+
+// vLockedStatter: a client that is safe for concurrent use, as the real ones are.
+type vLockedStatter struct {
+	mu sync.Mutex
+	vStatter
+}
+
+func (s *vLockedStatter) Inc(n string, v int64, r float32, t ...cactus.Tag) error {
+	s.mu.Lock()
+	defer s.mu.Unlock()
+	return s.vStatter.Inc(n, v, r, t...)
 }
